@@ -315,9 +315,15 @@ def run_e2e(prop, tier, build_timeout=900, run_timeout=1800):
         if r.get("dump_errors"):
             raise Machinery(f"macro dump does not parse: {r['dump_errors'][:3]}")
     res["counters"] = agg
+    # lexers that were screened out, failed to build or hung have no (current) snapshot
+    for gid in exclude:
+        try:
+            os.unlink(os.path.join(d, "dumps", f"L{gid}.dump"))
+        except FileNotFoundError:
+            pass
     # all-strings exploration of the automata the real macro built + dump binding
     t0 = time.time()
-    res["dumps"] = pexp(["dumps", os.path.join(d, "dumps"), prop, tier])
+    res["dumps"] = pexp(["dumps", os.path.join(d, "dumps"), prop, tier], timeout=1800)
     res["dumps_s"] = time.time() - t0
     return res
 
